@@ -178,6 +178,16 @@ def main(run):
     # component unchanged"; an absolute path stays absolute, a relative one relative (Engine D3)
     from .. import pathclosure
     ctx = sites.Ctx(P)
+    # what the path handle hands out (Deref) is exactly its window buffer[start..end]
+    from ..core import Run as _Run
+    _scratch = _Run('C10-sites', run.tier, '__none__')
+    _c2, _site_results = sites.check(_scratch, P, 'C10')
+    _views = [r for r in _site_results if r[3] == 'HANDLE' and 'PathMutImpl' in r[0]['name']]
+    run.cov['handle_views'] = len(_views)
+    for (vb, line, callee, cls, by, detail, ok, why, _n) in _views:
+        if not ok:
+            run.violation(f'view|{vb["name"]}', f'{P.where(vb, line)} {vb["name"]}: {why}')
+    run.floor('handle_views', 1, 'views handed out by the path handle')
     ok, ncalls = pathmut.make_root_guarded(P)
     if not ok:
         run.violation('make_root|guard', 'PathMutImpl::make_root is called without the needs_root() guard under which it is verified')
